@@ -1145,19 +1145,19 @@ Proof. vm_compute. repeat split; reflexivity. Qed.
 
 (* ---- open defects of the implementation, reproduced by the model ---- *)
 
-(* D-C05-3: the declaration's recorded line is the line of the return type, its columns those of the name *)
+(* D-C05-3 (repaired by 00fa4f2): the declaration's recorded line USED to be the line of the return type, its columns those of the name; with such a record: *)
 Example declaration_on_second_line_refuted :
   exec1 ("  void" +++ nl +++ "  old() { }") [(xpos 1 2 5, "fresh")] = "  freshd" +++ nl +++ "  old() { }".
 Proof. vm_compute. reflexivity. Qed.
 
-(* D-C05-4: an interface method records the whole declaration: start of the return type .. column of ';' + len(name);
+(* D-C05-4 (repaired in /repo by 26ae34e; the statement below is about the positions the full pass USED to record): an interface method recorded the whole declaration: start of the return type .. column of ';' + len(name);
    the stop column is clamped to the end of the line *)
 Example interface_method_refuted :
   exec1 "  void old();" [(xpos 1 2 15, "fresh")] = "  fresh"
   /\ exec1 "interface I { void old(); int x(); }" [(xpos 1 14 27, "fresh")] = "interface I { freshnt x(); }".
 Proof. vm_compute. split; reflexivity. Qed.
 
-(* D-C05-5: this.old() is recorded with node name "this", so the call is not a site of p.A.old *)
+(* D-C05-5 (repaired by 027fb6a): this.old() used to be recorded with node name "this"; with such a record the call is not a site of p.A.old *)
 Example this_receiver_not_a_site :
   plan [xnode "p" "A" "p/A.java" [xfunc "old" (xpos 1 5 8) []; xfunc "k" (xpos 2 5 6) [xcall "p" "this" "old" (xpos 2 15 18)]]]
        (parse_relates "p.A.old -> p.A.fresh") = [SEdit "p/A.java" (xpos 1 5 8) "fresh"].
